@@ -453,7 +453,8 @@ where
         changes.sort_unstable_by_key(|&(id, _)| id);
 
         for &(&id, &(ref primitive, gen)) in changes.iter() {
-            let pos = self.backend.len();
+            // offsets in the file are relative to the header, which need not be at byte 0
+            let pos = self.backend.len() - self.start_offset;
             self.refs.set(id, XRef::Raw { pos: pos as _, gen_nr: gen });
             writeln!(self.backend, "{} {} obj", id, gen)?;
             primitive.serialize(&mut self.backend)?;
@@ -461,7 +462,7 @@ where
             writeln!(self.backend, "\nendobj")?;
         }
 
-        let xref_pos = self.backend.len();
+        let xref_pos = self.backend.len() - self.start_offset;
         self.refs.set(xref_promise.get_inner().id, XRef::Raw { pos: xref_pos, gen_nr: 0 });
         // only write up to the xref stream obj id
         let stream = self.refs.write_stream(xref_promise.get_inner().id as usize + 1)?;
